@@ -22,6 +22,12 @@ ReqPath(node) == IF "reqpath" \in DOMAIN node THEN node.reqpath ELSE ""
 RIss(node, p, code, ty) == [path |-> IF ReqPath(node) # "" THEN ReqPath(node) ELSE PathStr(p), code |-> code, ty |-> ty]
 TIss(p, t, ty)   == [path |-> IF t.path # "" THEN t.path ELSE PathStr(p), code |-> t.code, ty |-> ty]
 
+\* ---- Preprocess: what the wrapped schema sees ------------------------------
+\* kind "ok" hands its argument on, "mut" replaces it by the marker value 7, "err" / "zerr" fail
+PreRuns(node) == node.ty \in {"ok", "mut"}
+PreIn(node, in) == IF node.ty = "mut" THEN [t |-> "val", v |-> 7, rep |-> "str", items |-> <<>>] ELSE in
+PreD(node, d, dp) == IF node.ty = "mut" THEN (dp :> 7) @@ d ELSE d
+
 \* ---- C10: which input key names a struct field ---------------------------
 \* Parse: source-specific tag, else zog tag, else the schema key; Validate: zog tag else key.
 SourceTag(kid, fe) ==
@@ -110,7 +116,7 @@ RefParse(node, in, p, fe) ==
          IF ~StrInput(in, node) THEN <<Iss(p, "coerce", DType(node))>>
          ELSE IF node.ty = "err" THEN <<Iss(p, "", DType(node))>>            \* a plain error: wrapped, no code
          ELSE IF node.ty = "zerr" THEN <<Iss(p, "prez", DType(node))>>       \* a ZogIssue returned by the function
-         ELSE RefParse(Elem(node), in, p, fe)
+         ELSE RefParse(Elem(node), PreIn(node, in), p, fe)
     [] OTHER -> <<>>
 
 (***************************************************************************)
@@ -152,6 +158,9 @@ RefValidate(node, d, dp, p) ==
     [] node.k = "ptr" ->
          IF d[dp] = 0 THEN (IF node.req THEN <<RIss(node, p, "not_nil", DType(node))>> ELSE <<>>)
          ELSE RefValidate(Elem(node), d, Append(dp, "*"), p)
+    \* Validate: the function gets the pointer, its result is stored, then the wrapped schema validates it;
+    \* ANY error (a returned ZogIssue included) becomes a code-less issue carrying the error text
+    [] node.k = "pre" -> IF PreRuns(node) THEN RefValidate(Elem(node), PreD(node, d, dp), dp, p) ELSE <<Iss(p, "", DType(node))>>
     [] OTHER -> <<>>
 
 (***************************************************************************)
@@ -194,7 +203,7 @@ RefDestParse(node, in, dp, d, fe) ==
          IF ParseAbsent(in) THEN d
          ELSE LET d1 == IF d[dp] = 0 THEN (dp :> 1) @@ ZeroDest(Elem(node), Append(dp, "*")) @@ d ELSE d
               IN RefDestParse(Elem(node), in, Append(dp, "*"), d1, fe)
-    [] node.k = "pre" -> IF StrInput(in, node) /\ node.ty = "ok" THEN RefDestParse(Elem(node), in, dp, d, fe) ELSE d
+    [] node.k = "pre" -> IF StrInput(in, node) /\ PreRuns(node) THEN RefDestParse(Elem(node), PreIn(node, in), dp, d, fe) ELSE d
     [] OTHER -> d
 
 \* destination after Validate: changed only through Default and Catch (C19, C05)
@@ -223,6 +232,7 @@ RefDestValidate(node, dp, d) ==
          IN IF d[dp] <= 0 /\ node.def = None THEN d ELSE E[n]
     [] node.k = "ptr" ->
          IF d[dp] = 0 THEN d ELSE RefDestValidate(Elem(node), Append(dp, "*"), d)
+    [] node.k = "pre" -> IF PreRuns(node) THEN RefDestValidate(Elem(node), dp, PreD(node, d, dp)) ELSE d
     [] OTHER -> d
 
 (***************************************************************************)
@@ -257,7 +267,7 @@ ValidP(node, in, d, dp, fe) ==
     [] node.k = "ptr" ->
          IF ParseAbsent(in) THEN ~node.req
          ELSE d[dp] = 1 /\ ValidP(Elem(node), in, d, Append(dp, "*"), fe)
-    [] node.k = "pre" -> StrInput(in, node) /\ node.ty = "ok" /\ ValidP(Elem(node), in, d, dp, fe)
+    [] node.k = "pre" -> StrInput(in, node) /\ PreRuns(node) /\ ValidP(Elem(node), PreIn(node, in), d, dp, fe)
     [] OTHER -> TRUE
 
 \* Validate: d0 is the value before the call (tells which nodes were absent), d the value after
@@ -280,6 +290,7 @@ ValidV(node, d0, d, dp) ==
               /\ AllPass(node, d[dp])
     [] node.k = "ptr" ->
          IF d0[dp] = 0 THEN ~node.req ELSE ValidV(Elem(node), d0, d, Append(dp, "*"))
+    [] node.k = "pre" -> PreRuns(node) /\ ValidV(Elem(node), PreD(node, d0, dp), d, dp)
     [] OTHER -> TRUE
 
 \* C05: the same schema with every Catch removed
@@ -302,7 +313,7 @@ CatchPathsP(node, in, p, fe) ==
                     ELSE IF in.t = "list" THEN in.items ELSE <<Ent("", in)>>
          IN UNION {CatchPathsP(Elem(node), src[i].val, Append(p, Idx(i - 1)), fe) : i \in DOMAIN src}
     [] node.k = "ptr" -> IF ParseAbsent(in) THEN {} ELSE CatchPathsP(Elem(node), in, p, fe)
-    [] node.k = "pre" -> IF StrInput(in, node) /\ node.ty = "ok" THEN CatchPathsP(Elem(node), in, p, fe) ELSE {}
+    [] node.k = "pre" -> IF StrInput(in, node) /\ PreRuns(node) THEN CatchPathsP(Elem(node), PreIn(node, in), p, fe) ELSE {}
     [] OTHER -> {}
 
 RECURSIVE CatchPathsV(_, _, _, _)
@@ -316,6 +327,7 @@ CatchPathsV(node, d, dp, p) ==
          IN UNION {CatchPathsV(Elem(node), IF d[dp] > 0 THEN d ELSE Flatten(node, DefaultList(node), dp),
                                Append(dp, Idx(i - 1)), Append(p, Idx(i - 1))) : i \in 1..n}
     [] node.k = "ptr" -> IF d[dp] = 0 THEN {} ELSE CatchPathsV(Elem(node), d, Append(dp, "*"), p)
+    [] node.k = "pre" -> IF PreRuns(node) THEN CatchPathsV(Elem(node), PreD(node, d, dp), dp, p) ELSE {}
     [] OTHER -> {}
 \* ---- C10: every path an issue of this execution can legitimately carry (node paths and IssuePath overrides) ----
 RECURSIVE NodePathsP(_, _, _, _)
@@ -341,6 +353,7 @@ NodePathsV(node, d, dp, p) ==
          IN UNION {NodePathsV(Elem(node), IF dp \in DOMAIN d /\ d[dp] > 0 THEN d ELSE Flatten(node, DefaultList(node), dp),
                               Append(dp, Idx(i - 1)), Append(p, Idx(i - 1))) : i \in 1..n}
     [] node.k = "ptr" -> IF dp \in DOMAIN d /\ d[dp] # 0 THEN NodePathsV(Elem(node), d, Append(dp, "*"), p) ELSE {}
+    [] node.k = "pre" -> NodePathsV(Elem(node), d, dp, p)
     [] OTHER -> {}
 
 \* ---- C05: destination paths of the catching primitives that exist in a (reference) destination ----
